@@ -1,5 +1,5 @@
 """C05 - cell-ID codec (bits and hex) is a bijection with the documented layout."""
-from .. import core, gen, spec
+from .. import bulk, core, gen, spec
 
 LEVEL = "proof"
 
@@ -177,7 +177,9 @@ def run(run):
         if not (d.startswith("ok ") and s == f"ok {cid}"):
             run.violation("encode(decode(id)) != id for a canonical id", reqs[i], f"{d} / {s}")
         k += 1
-    run.rule = ("exhaustive over all cells of resolution <= %d, plus random/boundary/bit-pattern cells up to r=29, malformed ids, "
+    # bulk: compact on more than 2^20 ids with non-canonical spellings among them: every returned id canonical, one id per cell
+    bulk.check_compact(run, bulk.compact_requests(run)[-2:], "compact (bulk, non-canonical spellings)")
+    run.rule = ("compact on >2^20 ids incl. duplicates and non-canonical spellings (digest vs model and vs the expected canonical cover); exhaustive over all cells of resolution <= %d, plus random/boundary/bit-pattern cells up to r=29, malformed ids, "
                 "invalid descriptions, hex boundaries/single bits/random values and random short strings; "
                 "non-trivial = distinct ids of resolution >= 1 produced by the implementation's serialize" % rmax)
     run.samples = [{"request": reqs[i], "impl": impl[i], "model": model[i]} for i in rng.sample(range(len(reqs)), 8)]
